@@ -8,6 +8,7 @@ import (
 	"github.com/gopher-fleece/gleece/v2/infrastructure/logger"
 	"github.com/pb33f/libopenapi"
 	validator "github.com/pb33f/libopenapi-validator"
+	"github.com/pb33f/libopenapi/datamodel"
 	"github.com/pb33f/libopenapi/datamodel/high/base"
 	v3 "github.com/pb33f/libopenapi/datamodel/high/v3"
 	"github.com/pb33f/libopenapi/orderedmap"
@@ -82,7 +83,11 @@ func GenerateSpec(config *definitions.OpenAPIGeneratorConfig, defs []definitions
 		return nil, err
 	}
 
-	libopenapiDoc, docErr := libopenapi.NewDocument(jsonData)
+	// A struct that holds a slice of itself (a tree) is a finite, perfectly valid model - an empty array ends
+	// the recursion - even when the slice is marked as required. Do not treat it as an infinite circular reference.
+	libopenapiDoc, docErr := libopenapi.NewDocumentWithConfiguration(jsonData, &datamodel.DocumentConfiguration{
+		IgnoreArrayCircularReferences: true,
+	})
 
 	if docErr != nil {
 		return nil, fmt.Errorf("Failed to build a valid libopenapi document %v", docErr.Error())
